@@ -273,7 +273,7 @@ DIRECTIVES = {"c12": d_c12}
 PRE = ()
 
 
-def gen_c12(rnd, workers, heap, nlist, nmut, yield_seed):
+def gen_c12(rnd, workers, heap, nlist, nmut, yield_seed, wide=0):
     info = G.plan_info("ConcurrentImmix", "fs_main")
     g = G.Gen(rnd, "ConcurrentImmix", info, "fs_main", heap)
     r = rnd
@@ -296,6 +296,18 @@ def gen_c12(rnd, workers, heap, nlist, nmut, yield_seed):
     for s in range(3, 11):
         g.root(0, s, None)
     hi_region = g.next_id - 1
+    # optional wide fan-out (hangs off the list tail, outside the mutated region): ONE object with `wide` >= 16384 distinct
+    # unmarked referents, each with a child of its own — the local queue of the concurrent tracing packet that scans it
+    # overflows (CONCURRENT_TRACE_OVERFLOW) and the first 8192 queued objects are handed to a new packet
+    wob = None
+    if wide:
+        wob = g.alloc(0, wide, 24 + 8 * wide + 8, "Los", slot=11)
+        for k in range(wide):
+            c = g.alloc(0, 1, 40, "Default", slot=9)
+            gc_ = g.alloc(0, 0, 40, "Default", slot=8)
+            g.write(c, 0, gc_)
+            g.write(wob, k, c)
+        g.root(0, 8, None); g.root(0, 9, None)
     # a long list head -> … -> tail -> S: the marker reaches the region only after it walked the whole list
     head = None
     for i in range(nlist):
@@ -304,6 +316,9 @@ def gen_c12(rnd, workers, heap, nlist, nmut, yield_seed):
             g.write(x, 0, head)
         else:
             g.write(x, 1, sup)
+            if wob is not None:
+                g.write(x, 0, wob)
+                g.root(0, 11, None)
         head = x
         if i % 2000 == 1999:
             g.ops.append("~gc 0 1")       # a user GC is a full STW pause; no snapshot: keeps the monitor's interval lists short
@@ -316,7 +331,8 @@ def gen_c12(rnd, workers, heap, nlist, nmut, yield_seed):
     assert sum(1 for o in ops if o.startswith("alloc")) == g.next_id       # ids stayed dense / unchanged
     ops.append(f"!c12 {r.randrange(1 << 30)} {nmut} {lo} {hi}")
     ops += ["gc 0 1", "snap", "stats"]
-    return G.Program("ConcurrentImmix", ops, heap=heap, workers=workers, yield_seed=yield_seed, tag="satb", mode={"gcw": ["satb"]})
+    return G.Program("ConcurrentImmix", ops, heap=heap, workers=workers, yield_seed=yield_seed, tag="satb-wide" if wide else "satb",
+                     mode={"gcw": ["satb"]})
 
 
 def make_suite(seed, tier):
@@ -326,7 +342,8 @@ def make_suite(seed, tier):
         for rep in range(12 if thorough else 3):
             rnd = random.Random(f"{seed}/C12/{w}/{rep}")
             progs.append(gen_c12(rnd, w, rnd.choice([16, 24]) * G.MB, rnd.choice([8000, 12000, 20000]) if not thorough else rnd.choice([20000, 30000]),
-                                 rnd.choice([150, 300]) if not thorough else 800, rnd.randrange(1, 1 << 30) if rep != 0 else 0))
+                                 rnd.choice([150, 300]) if not thorough else 800, rnd.randrange(1, 1 << 30) if rep != 0 else 0,
+                                 wide=rnd.choice([16500, 17000, 20000]) if rep % 3 == 1 and (thorough or w == 1) else 0))
     return progs
 
 
